@@ -61,8 +61,8 @@ def check_c19(ctx):
     q = ctx.tier == "quick"
     ctx.cov["rule"] = ("case = one dictionary (sequence of ranges in insertion order + multiset of singles over one "
                        "ordered address space with three zones: IPv6 ::n below the IPv4-mapped block, IPv4 0.0.0.n = "
-                       "::ffff:0.0.0.n, IPv6 ::1:0:0:n above it, n < A; IPv6 ranges below, above and straddling the "
-                       "IPv4 block) enumerated (exhaustive) or simulated by TLC together "
+                       "::ffff:0.0.0.n, IPv6 ::1:0:0:n above it, and the highest addresses up to ffff:..:ffff; IPv6 ranges "
+                       "below, above and straddling the IPv4 block, ending at the highest address) enumerated (exhaustive) or simulated by TLC together "
                        "with the set of contained probe addresses Layer P dictates; each is built on the real code "
                        "(NewIPItems/InsertPair/InsertSingle/Sort/IPTable.Update, every 7th through txt_load."
                        "CheckAndLoad) and IPTable.Search is compared on every address of the domain incl. the one "
@@ -70,9 +70,9 @@ def check_c19(ctx):
                        "distinct non-empty dictionaries.")
     # 1. TLC, exhaustive: the mechanism model (sort + marker merge + truncate + binary search) equals
     #    Contains for every input, and every input is printed with the membership Layer P dictates
-    both = [{"A": 2, "MAXR": 3, "MAXS": 1}, {"A": 3, "MAXR": 3, "MAXS": 0}] if q else \
-           [{"A": 2, "MAXR": 3, "MAXS": 2}, {"A": 3, "MAXR": 3, "MAXS": 1}, {"A": 2, "MAXR": 4, "MAXS": 0}]
-    only = [] if q else [{"A": 4, "MAXR": 3, "MAXS": 0}]
+    both = [{"A": 1, "MAXR": 4, "MAXS": 1}, {"A": 2, "MAXR": 3, "MAXS": 0}] if q else \
+           [{"A": 1, "MAXR": 4, "MAXS": 2}, {"A": 2, "MAXR": 3, "MAXS": 1}, {"A": 1, "MAXR": 5, "MAXS": 0}]
+    only = [] if q else [{"A": 3, "MAXR": 3, "MAXS": 0}]
     cases = []
     for d in both:
         ctx.cov["constants"]["MCGen_IpDict_A%d_R%d_S%d" % (d["A"], d["MAXR"], d["MAXS"])] = d
